@@ -3827,6 +3827,7 @@ _dispatch_lane_invoke2(dispatch_lane_t dq, dispatch_invoke_context_t dic,
 	dispatch_queue_t cq = _dispatch_queue_get_current();
 
 	if (unlikely(cq != otq)) {
+		DISPATCH_VERIF_PROBE(26);
 		return otq;
 	}
 	if (dq->dq_width == 1) {
